@@ -438,6 +438,35 @@ def run(tier, seed):
             if t.transpose("5", False) is not t or t.augment() is not t or t.diminish() is not t:
                 R.fail(G, "applies-the-operation-to-every-note-exactly-once", "transpose/augment/diminish did not return "
                        "the track", (spec[1],))
+    # tracks whose later bars are the earlier bars' figure moved by the very interval applied afterwards
+    # (melodic sequences): every bar is a separate object and must still be transposed exactly once
+    G = "Track of sequenced bars"
+    for s in range(40 if quick else 600):
+        with section(G, 'applies-the-operation-to-every-note-exactly-once', ("seed", seed, "sequenced", s)):
+            sh, up = rnd.choice(IN_DOMAIN), rnd.random() < 0.5
+            key, meter = rnd.choice(KEYS), rnd.choice(METERS[:-1])
+            figure = [(None if c is None else [(n, max(o, 2), v, ch) for (n, o, v, ch) in c][:3], val)
+                      for c, val in rand_entries(rnd.randint(1, 4))]
+            bars_spec = []
+            cur = figure
+            for _ in range(rnd.randint(2, 4)):
+                bars_spec.append(("bar", (key, meter, cur), None))
+                nxt = []
+                for c, val in cur:
+                    if c is None:
+                        nxt.append((None, val))
+                    else:
+                        moved = []
+                        for (n, o, v, ch) in c:
+                            q = Note(n, o)
+                            q.transpose(sh, up)
+                            moved.append((q.name, q.octave, v, ch))
+                        nxt.append((moved, val))
+                cur = nxt
+            spec = (None, bars_spec)
+            for op in (("T", sh, up), ("T", sh, not up), ("A",), ("D",)):
+                R.case(G, (s, op))
+                check_op(G, "track", make_track(spec), op, (spec[1], op))
     G = "Track step sequences"
     for s in range(200 if quick else 8000):
         with section(G, 'applies-the-operation-to-every-note-exactly-once', ("seed", seed, "sequence", s)):
